@@ -32,7 +32,19 @@ RBrace == [t |-> "rbrace"]
 EndCall == [t |-> "eoc"]                      \* boundary between two Execute calls
 StrLit(bytes) == [t |-> "strlit", bytes |-> bytes]
 
-Fail(s, es) == [s EXCEPT !.status = "error", !.errs = es, !.est = <<>>]
+\* When an operator fails, the library runs the error handler of every enclosing control
+\* operator (up to five nested invocations each), and every handler invocation is an
+\* operation itself (interpreter.go, case builtin).  How many operations an error costs
+\* therefore depends on the host-language nesting, which the model does not track: with
+\* a budget set, a failing program may surface its own error or the budget error.
+NearBudget(s) == s.maxops > 0
+Fail(s, es) == [s EXCEPT !.status = "error", !.est = <<>>,
+                         !.errs = IF NearBudget(s) THEN es \cup {"budget"} ELSE es]
+Live(s) == s.status = "running"
+\* NumOps++ followed by the budget test (interpreter.go, label recurseTail)
+Count(s) == IF s.maxops > 0 /\ s.nops + 1 > s.maxops
+            THEN [s EXCEPT !.status = "error", !.errs = {"budget"}, !.est = <<>>, !.nops = @ + 1]
+            ELSE [s EXCEPT !.nops = @ + 1]
 Skip(s) == [s EXCEPT !.status = "skip", !.est = <<>>]
 
 IsLoopFrame(f) == f.k \in {"for", "repeat", "loop", "forall"}
@@ -43,6 +55,12 @@ EnterProc(s, p) ==
     IF p.len = 0 THEN s
     ELSE IF ProcDepth(s.est) >= MaxExecDepth THEN Fail(s, {"execstackoverflow"})
     ELSE [s EXCEPT !.est = Append(@, [k |-> "proc", p |-> p, pc |-> 0])]
+\* a control operator calls a procedure: executeOne(proc, true) -- nesting and operand
+\* stack tests, then the procedure object counts as one operation
+CallProc(s, p) ==
+    IF ProcDepth(s.est) >= MaxExecDepth THEN Fail(s, {"execstackoverflow"})
+    ELSE IF Len(s.ost) > MaxOpStack THEN Fail(s, {"stackoverflow"})
+    ELSE LET s1 == Count(s) IN IF Live(s1) THEN EnterProc(s1, p) ELSE s1
 
 PushV(s, v) == [s EXCEPT !.ost = Append(@, v)]
 
@@ -98,7 +116,7 @@ ExecOp(s, op) ==
               IF n < 1 THEN Fail(s, {"stackunderflow"})
               ELSE LET o == A(st, 0)
                        s1 == [s EXCEPT !.ost = Pop(st, 1)]
-                   IN IF o.t = "proc" THEN EnterProc(s1, o)
+                   IN IF o.t = "proc" THEN CallProc(s1, o)
                       ELSE IF o.t = "op" THEN ExecOp(s1, o.s)
                       ELSE Skip(s)                       \* ExecOnlyProcAndOp: not generated
          [] op = "if" ->
@@ -106,13 +124,13 @@ ExecOp(s, op) ==
               ELSE IF A(st, 1).t # "bool" THEN Fail(s, {"typecheck"})
               ELSE IF A(st, 0).t # "proc" THEN Skip(s)
               ELSE LET s1 == [s EXCEPT !.ost = Pop(st, 2)]
-                   IN IF A(st, 1).b THEN EnterProc(s1, A(st, 0)) ELSE s1
+                   IN IF A(st, 1).b THEN CallProc(s1, A(st, 0)) ELSE s1
          [] op = "ifelse" ->
               IF n < 3 THEN Fail(s, {"stackunderflow"})
               ELSE IF A(st, 2).t # "bool" THEN Fail(s, {"typecheck"})
               ELSE IF A(st, 0).t # "proc" \/ A(st, 1).t # "proc" THEN Skip(s)
               ELSE LET s1 == [s EXCEPT !.ost = Pop(st, 3)]
-                   IN IF A(st, 2).b THEN EnterProc(s1, A(st, 1)) ELSE EnterProc(s1, A(st, 0))
+                   IN IF A(st, 2).b THEN CallProc(s1, A(st, 1)) ELSE CallProc(s1, A(st, 0))
          [] op = "for" ->
               IF n < 4 THEN Fail(s, {"stackunderflow"})
               ELSE IF A(st, 3).t # "int" \/ A(st, 2).t # "int" \/ A(st, 1).t # "int" THEN
@@ -167,18 +185,21 @@ Exec(s, o) ==
         LET d == Where(s.heap, s.dst, o.s)
         IN IF d = 0 THEN Fail(s, {"undefined"})
            ELSE LET v == DGet(s.heap, DictV(d), o.s)
-                IN IF v.t = "op" THEN ExecOp(s, v.s)
-                   ELSE IF v.t = "proc" THEN EnterProc(s, v)
-                   ELSE PushV(s, v)
+                    s1 == Count(s)          \* the value is dispatched as a second operation
+                IN IF ~Live(s1) THEN s1
+                   ELSE IF v.t = "op" THEN ExecOp(s1, v.s)
+                   ELSE IF v.t = "proc" THEN EnterProc(s1, v)
+                   ELSE PushV(s1, v)
     ELSE IF o.t = "op" THEN ExecOp(s, o.s)
     ELSE PushV(s, o)                       \* literals, and procedures met directly: pushed
 
-\* budget and operand-stack check made before every dispatch
+\* executeOne(obj, false): operand-stack test, count, dispatch
 Guarded(s, o) ==
     IF Len(s.ost) > MaxOpStack THEN Fail(s, {"stackoverflow"})
-    ELSE IF s.maxops > 0 /\ s.nops + 1 > s.maxops THEN
-        [s EXCEPT !.status = "error", !.errs = {"budget"}, !.est = <<>>, !.nops = @ + 1]
-    ELSE Exec([s EXCEPT !.nops = @ + 1], o)
+    ELSE LET s1 == Count(s) IN IF Live(s1) THEN Exec(s1, o) ELSE s1
+\* the last element of a body is dispatched without a new executeOne call (goto
+\* recurseTail): it is counted, the operand stack is not tested again
+TailElem(s, o) == LET s1 == Count(s) IN IF Live(s1) THEN Exec(s1, o) ELSE s1
 
 \* one step of the topmost continuation frame
 StepFrame(s) ==
@@ -189,27 +210,28 @@ StepFrame(s) ==
                   \* tail call: the frame is finished before its last element runs
                   est1 == IF top.pc + 1 = top.p.len THEN rest
                           ELSE Append(rest, [top EXCEPT !.pc = top.pc + 1])
-              IN Guarded([s EXCEPT !.est = est1], e)
+              IN IF top.pc + 1 = top.p.len THEN TailElem([s EXCEPT !.est = est1], e)
+                 ELSE Guarded([s EXCEPT !.est = est1], e)
          [] top.k = "for" ->
               IF (top.inc.s > 0 /\ Gt(top.cur, top.lim)) \/ (top.inc.s < 0 /\ Lt(top.cur, top.lim))
               THEN [s EXCEPT !.est = rest]
-              ELSE EnterProc([s EXCEPT !.ost = Append(@, IntV(top.cur)),
+              ELSE CallProc([s EXCEPT !.ost = Append(@, IntV(top.cur)),
                                        !.est = Append(rest, [top EXCEPT !.cur = Add(top.cur, top.inc)])], top.p)
          [] top.k = "repeat" ->
               IF top.n.s = 0 THEN [s EXCEPT !.est = rest]
-              ELSE EnterProc([s EXCEPT !.est = Append(rest, [top EXCEPT !.n = Sub(top.n, One)])], top.p)
-         [] top.k = "loop" -> EnterProc(s, top.p)
+              ELSE CallProc([s EXCEPT !.est = Append(rest, [top EXCEPT !.n = Sub(top.n, One)])], top.p)
+         [] top.k = "loop" -> CallProc(s, top.p)
          [] top.k = "forall" ->
               IF top.o.t = "dict" THEN
                   IF top.j >= Len(top.keys) THEN [s EXCEPT !.est = rest]
                   ELSE LET key == top.keys[top.j + 1]
                            s1 == [s EXCEPT !.est = Append(rest, [top EXCEPT !.j = top.j + 1])]
                        IN IF DHas(s.heap, top.o, key)
-                          THEN EnterProc([s1 EXCEPT !.ost = @ \o <<NameV(key), DGet(s.heap, top.o, key)>>], top.p)
+                          THEN CallProc([s1 EXCEPT !.ost = @ \o <<NameV(key), DGet(s.heap, top.o, key)>>], top.p)
                           ELSE s1
               ELSE IF top.j >= top.o.len THEN [s EXCEPT !.est = rest]
               ELSE LET x == VGet(s.heap, top.o, top.j)
-                   IN EnterProc([s EXCEPT !.ost = Append(@, IF top.o.t = "str" THEN IntN(x) ELSE x),
+                   IN CallProc([s EXCEPT !.ost = Append(@, IF top.o.t = "str" THEN IntN(x) ELSE x),
                                           !.est = Append(rest, [top EXCEPT !.j = top.j + 1])], top.p)
          [] OTHER -> Skip(s)
 
